@@ -63,3 +63,11 @@ class untraced:
         if self._nt is not None:
             self._nt.__exit__(*a)
         return False
+
+
+def pick(sel, pool):
+    """Choose pool[sel] by explicit branching on the (symbolic) selector: the solver forks, the result is concrete."""
+    for i in range(len(pool) - 1):
+        if sel == i:
+            return pool[i]
+    return pool[-1]
